@@ -32,6 +32,5 @@ package bytetree
 //@   loop 1 invariant cp_fresh: cp != nil && fresh(cp) && cp.root != nil && fresh(cp.root)
 
 //@ func (*Tree).Length
-//@   requires bt != nil
 //@   pureheap
 //@   ensures val: result == bt.length
